@@ -60,6 +60,11 @@ SCRIPTS['n'] = ('(set-logic QF_LIA)(declare-const |x| Int)'
 SCRIPTS['p'] = ('(declare-const x Int))(assert (> x 1))(assert (< x 5))'
                 '(check-sat)')
 
+# several variables of one sort next to a defined constant of that sort
+SCRIPTS['q'] = ('(declare-const a Int)(declare-const b Int)'
+                '(declare-const c Int)(define-fun k () Int 3)'
+                '(assert (> (+ a b) (* c k)))(check-sat)')
+
 MUTSETS = {
     'consts': ['Constants'],
     'late': ['SimplifySymbolNames', 'ReplaceByVariable'],
@@ -130,6 +135,7 @@ KEYS = {
     'm': ['c', 'd', 'mix', 'distinct', '=', 'check-sat'],
     'n': ['|x|', '!', ':named', 'a1', '>', 'set-logic'],
     'p': ['x', '>', '<', '1', '5', 'check-sat'],
+    'q': ['a', 'b', 'c', 'k', '>', '*'],
 }
 
 
